@@ -251,3 +251,10 @@ func JSONTransfer(src, dst interface{}, conv func(interface{}) interface{}) bool
 	}
 	return json.Unmarshal(b, dst) == nil
 }
+
+// ExpectExit runs f and reports whether it ended the process (log.Fatal, os.Exit) - under the
+// executor only; a Go panic inside f is a violation as everywhere else.  Natively f just runs.
+func ExpectExit(f func()) (exited bool) {
+	f()
+	return false
+}
